@@ -305,7 +305,7 @@ class RNG:
                     e = self.P.external_name(fi, d.value)
                     if e in ("random", "numpy.random"):
                         why = self.seed_guarded(fi, d.stmt)
-                        ctx.check(bool(why), "RNG-1", fi, d.stmt, f"{d.var} = <module {e}>", why or "",
+                        ctx.check(bool(why), "RNG-1", fi, d.stmt, f"a local generator variable = <module {e}>", why or "",
                                   f"the process-global {e} module is bound as the working generator without a "
                                   f"'<seed> is None' guard")
             # default-ambient calls: callee draws from its `rng=random` default
@@ -369,7 +369,7 @@ class RNG:
             d = c.param_default(p)
             e = self.P.external_name(c, d) if d is not None else None
             amb.append(e in ("random", "numpy.random"))
-        inst = f"{norm(cs.node.func)}(...) without a generator"
+        inst = f"{name_free(fi, cs.node.func)}(...) without a generator"
         if all(amb):
             why = self.seed_guarded(fi, cs.node)
             self.ctx.check(bool(why), "RNG-1", fi, cs.node, inst, why or "",
@@ -396,7 +396,7 @@ class RNG:
                     n_acc = sum(1 for p in ps if p)
                     if n_acc:
                         passed = [self._passed(cs, c, p) for c, p in zip(callees, ps) if p]
-                        inst = f"{norm(cs.node.func)}(...)"
+                        inst = f"{name_free(fi, cs.node.func)}(...)"
                         if n_acc == len(callees):
                             if all(v is None for v in passed):
                                 ctx.violation("RNG-2", fi, cs.node, inst + " generator not forwarded",
@@ -426,7 +426,7 @@ class RNG:
                         if sp is None:
                             continue
                         v = self._passed(cs, c, sp)
-                        inst = f"{norm(cs.node.func)}(...) seed"
+                        inst = f"{name_free(fi, cs.node.func)}(...) seed"
                         if v is None:
                             ctx.violation("RNG-2", fi, cs.node, inst + " not forwarded",
                                           f"`{seed_here}` is in scope but the derived object is built without it")
@@ -470,7 +470,7 @@ class RNG:
                     boolctx = True
                 elif isinstance(par, ast.Call) and isinstance(par.func, ast.Name) and par.func.id == "bool":
                     boolctx = True
-                inst = f"use of seed `{norm(node)}` in `{norm(par) if par is not None else '?'}`"
+                inst = f"use of seed `{name_free(fi, node)}` in `{name_free(fi, par) if par is not None else chr(63)}`"
                 ctx.check(not boolctx, "RNG-3", fi, node, inst, "not a truthiness test",
                           "a seed is tested by truthiness: seed=0 is treated as 'no seed'")
 
@@ -487,7 +487,7 @@ class RNG:
                     try:
                         t = deep_inline(self.X, self.X.expr(fi, arg), 3)
                     except RecursionError:
-                        ctx.unknown("RNG-5", fi, cs.node, f"{cs.external}({norm(arg)})", "expression too deep")
+                        ctx.unknown("RNG-5", fi, cs.node, f"{cs.external}({name_free(fi, arg)})", "expression too deep")
                         continue
                     bad = [x for x in walk(t) if x.op == "call" and x.args[0].op == "builtin" and x.args[0].args[0] in ("hash", "id")]
                     bad += [x for x in walk(t) if x.op == "attr" and x.args[1] == "__hash__"]
